@@ -24,6 +24,13 @@ TEXT = ('rows of the compiled program and the labels used to read duals back are
 P = {'props': ['C14']}
 
 
+def _seq_key(it):
+    """one spelling for a concatenation of lists:  a + b  ==  [*a, *b]"""
+    if isinstance(it, (ast.List, ast.Tuple)) and it.elts and all(isinstance(e, ast.Starred) for e in it.elts):
+        return ' + '.join(ntext(e.value) for e in it.elts)
+    return ntext(it)
+
+
 def run(repo):
     res = RuleResult(RULE, 'row / label agreement', TEXT)
     res.floor = 14
@@ -37,11 +44,16 @@ def run(repo):
             for g in n.generators:
                 it = expand_locals(dm.node, g.iter, defs=defs)
                 if any(is_self_attr(x, 'lin_constr') for x in ast.walk(it)):
-                    iters.append((ntext(it), ntext(n.elt)[:50]))
+                    # the element expression with the comprehension variable called `item`
+                    elt = ntext(n.elt)
+                    if isinstance(g.target, ast.Name) and g.target.id != 'item':
+                        import re as _re
+                        elt = _re.sub(r'\b%s\b' % g.target.id, 'item', elt)
+                    iters.append((_seq_key(it), elt[:50]))
         elif isinstance(n, ast.For):
             it = expand_locals(dm.node, n.iter, defs=defs)
             if any(is_self_attr(x, 'lin_constr') for x in ast.walk(it)):
-                iters.append((ntext(it), 'for-loop (indptr)'))
+                iters.append((_seq_key(it), 'for-loop (indptr)'))
     if len(iters) < 6:
         raise AnalysisError('lp.Model.do_math: only %d iterations over lin_constr found' % len(iters))
     base = iters[0][0]
@@ -60,8 +72,15 @@ def run(repo):
         res.fail(Finding(RULE, dm.fq, 'row labels', 'the dual label of a row block must be the '
                          'constraint\'s index repeated linear.shape[0] times (found %s)' % label,
                          repo.where(dm), P))
+    # the list of label blocks: the local whose comprehension element is np.array([<x>.index] * ..)
+    label_lists = {n.targets[0].id for n in walk_no_nested(dm.node) if isinstance(n, ast.Assign)
+                   and isinstance(n.targets[0], ast.Name) and isinstance(n.value, ast.ListComp)
+                   and '.index]' in ntext(n.value.elt)}
+    if not label_lists:
+        raise AnalysisError('lp.Model.do_math: the list of per-constraint label blocks was not found')
     ci_ok = any(isinstance(n, ast.Assign) and any(is_self_attr(t, 'ciarray') for t in n.targets)
-                and 'constr_idx_list' in ntext(n.value) for n in walk_no_nested(dm.node))
+                and any(isinstance(x, ast.Name) and x.id in label_lists for x in ast.walk(n.value))
+                for n in walk_no_nested(dm.node))
     res.inst({'ciarray': 'np.concatenate(constr_idx_list)', 'ok': ci_ok}, ci_ok)
     if not ci_ok:
         res.fail(Finding(RULE, dm.fq, 'ciarray', 'self.ciarray is no longer the concatenation of the '
@@ -81,18 +100,29 @@ def run(repo):
         def visit(self, node, state):
             for n in ast.walk(node):
                 if isinstance(n, ast.Call) and ntext(n.func) == 'self.lin_constr.append':
-                    self.appends.append('indexed' in state and 'bumped' in state)
+                    self.appends.append('indexed' in state)
 
         def transfer(self, node, state):
-            if isinstance(node, ast.Assign) and any(ntext(t).endswith('.index') for t in node.targets) \
+            if isinstance(node, ast.Assign) and len(node.targets) == 1 and isinstance(node.targets[0], ast.Name) \
                     and ntext(node.value) == 'self.constr_idx':
-                state = state | {'indexed'}
-            if isinstance(node, ast.AugAssign) and is_self_attr(node.target, 'constr_idx'):
-                state = state | {'bumped'}
+                state = state | {('holds-counter', node.targets[0].id)}
+            if isinstance(node, ast.Assign) and any(ntext(t).endswith('.index') for t in node.targets) \
+                    and (ntext(node.value) == 'self.constr_idx' or
+                         (isinstance(node.value, ast.Name) and ('holds-counter', node.value.id) in state
+                          and 'bumped' not in state)):
+                state = (state | {'indexed'}) - {'balanced'}       # an index has been handed out ..
+            bump = (isinstance(node, ast.AugAssign) and is_self_attr(node.target, 'constr_idx') and
+                    isinstance(node.op, ast.Add)) or \
+                   (isinstance(node, ast.Assign) and len(node.targets) == 1 and is_self_attr(node.targets[0], 'constr_idx')
+                    and isinstance(node.value, ast.BinOp) and isinstance(node.value.op, ast.Add)
+                    and is_self_attr(node.value.left, 'constr_idx'))
+            if bump:
+                state = state | {'bumped', 'balanced'}              # .. and the counter has moved on
             return state
     fl = _Idx()
-    fl.run(body_stmts(st))
-    ok = bool(fl.appends) and all(fl.appends)
+    o_ = fl.run(body_stmts(st), {'balanced'})
+    exits_ = [s_ for s_, _n in o_.returns] + ([o_.normal] if o_.normal is not None else [])
+    ok = bool(fl.appends) and all(fl.appends) and all('balanced' in s_ for s_ in exits_ if s_ is not None)
     res.inst({'lp.Model.st': 'index assigned and counter bumped before append', 'ok': ok}, ok)
     if not ok:
         res.fail(Finding(RULE, st.fq, 'unique index', 'lp.Model.st can store a LinConstr without giving '
@@ -157,8 +187,15 @@ def run(repo):
                         res.fail(Finding(RULE, fi.fq, 'dual keys', '%s returns duals under the keys %s; '
                                          'dual() reads pi, upi and lpi' % (fi.fq, keys), repo.where(fi, n), P))
             # pi filled through eq / ineq masks
+            pi_names = {'pi'}
+            for n in walk_no_nested(fi.node):
+                if isinstance(n, ast.Dict):
+                    for k, v in zip(n.keys, n.values):
+                        if isinstance(k, ast.Constant) and k.value == 'pi' and isinstance(v, ast.Name):
+                            pi_names.add(v.id)
+            fdefs = single_defs(fi.node)
             fills = [n for n in walk_no_nested(fi.node) if isinstance(n, ast.Assign)
-                     and isinstance(n.targets[0], ast.Subscript) and ntext(n.targets[0].value) == 'pi']
+                     and isinstance(n.targets[0], ast.Subscript) and ntext(n.targets[0].value) in pi_names]
             # rows handed to the solver in two blocks (equalities / inequalities)?
             split = [n for n in walk_no_nested(fi.node) if isinstance(n, ast.Assign)
                      and isinstance(n.targets[0], ast.Name) and isinstance(n.value, ast.Subscript)
@@ -181,11 +218,16 @@ def run(repo):
                                      repo.where(fi), P))
             for n in fills:
                 idx = ntext(n.targets[0].slice)
-                val = ntext(n.value)
+                v0 = n.value.operand if isinstance(n.value, ast.UnaryOp) else n.value
+                # a value held in a temporary is read through its definition; other expressions as written
+                val = ntext(expand_locals(fi.node, n.value, depth=1, defs=fdefs)) if isinstance(v0, ast.Name) \
+                    else ntext(n.value)
                 is_ineq = 'ineq' in idx or idx.startswith('~')
                 v_ineq = 'ineq' in val or "['z']" in val
                 v_eq = ('eq' in val and 'ineq' not in val) or "['y']" in val
-                ok = (is_ineq and v_ineq and not v_eq) or (not is_ineq and v_eq and not v_ineq)
+                if v_ineq == v_eq:
+                    continue          # the source of the values is not recognisable by name: not judged
+                ok = (is_ineq and v_ineq) or (not is_ineq and v_eq)
                 res.inst({'interface': fi.fq, 'pi_fill': ntext(n)[:60], 'mask_matches_source': ok}, ok)
                 if not ok:
                     res.fail(Finding(RULE, fi.fq, 'pi fill: ' + ntext(n)[:40],
